@@ -387,7 +387,13 @@ ACCOUNTS = ['Assets:Bank:Checking', 'Assets:Bank:Savings', 'Assets:Broker', 'Lia
 CURRENCIES = ['USD', 'EUR', 'HOOL', 'VBMPX']
 TAGS = ['trip', 'work', 'q1']
 LINKS = ['inv-1', 'inv-2']
-KEYS = ['note', 'ref', 'both', 'amt', 'when', 'ok', 'qty']
+# metadata keys over the whole Beancount key syntax [a-z][a-zA-Z0-9\-_]+ : only the first character is lower case.
+# 'bOth' / 'both' and 'isinCode' / 'isincode' are pairs of DIFFERENT keys that differ in the case of a letter only.
+KEYS = ['note', 'ref', 'both', 'amt', 'when', 'ok', 'qty',
+        'isinCode', 'isincode', 'bOth', 'accountNumber', 'tax-Advantaged', 'fee_Rate2', 'openedOn']
+KEY_KINDS = {'note': 'str', 'ref': 'int', 'both': 'str', 'amt': 'amount', 'when': 'date', 'ok': 'bool', 'qty': 'dec',
+             'isinCode': 'str', 'isincode': 'int', 'bOth': 'str', 'accountNumber': 'str', 'tax-Advantaged': 'bool',
+             'fee_Rate2': 'dec', 'openedOn': 'date'}
 
 
 def _rand_num(rng, small=False):
@@ -399,8 +405,7 @@ def _rand_num(rng, small=False):
 
 
 def _rand_mv(rng, key, allow_null=False, printable=False):
-    kind = {'note': 'str', 'ref': 'int', 'both': 'str', 'amt': 'amount', 'when': 'date', 'ok': 'bool',
-            'qty': 'dec'}[key]
+    kind = KEY_KINDS[key]
     if allow_null and rng.random() < 0.08:
         return None
     if kind == 'str':
@@ -436,7 +441,7 @@ def random_ledger(rng, n, direct=True, start=datetime.date(2020, 1, 1), accounts
     def user_meta(p=0.4):
         if rng.random() > p:
             return []
-        keys = rng.sample(KEYS, rng.randint(1, 3))
+        keys = rng.sample(KEYS, rng.randint(1, 4))
         return [(k, _rand_mv(rng, k, allow_null=direct, printable=not direct)) for k in keys]
 
     day = [start]
